@@ -24,7 +24,9 @@ Inductive eff :=
 | CopyValue         (* bitwise move of the value into the fresh allocation                      *)
 | AssignDropOld     (* star-this = rc: the old handle is dropped through Rc::drop               *)
 | OverwriteNoDrop   (* ptr::write(this, rc): the old handle is overwritten, no Rc::drop         *)
-| ReturnOk | ReturnErr | Return.
+| ReturnOk | ReturnErr | Return
+(* rc.rs: raw-pointer functions; CloneValue on a ManuallyDrop<Rc<T>> is Rc::clone *)
+| ManuallyDropNew | FromRaw | DropFromRaw | AsPtr | DataOffset | FromPtr.
 
 Inductive enode :=
 | E (e : eff)
